@@ -714,9 +714,9 @@ def measure_checks(ctx, rng, station, given, date, lk, tols, w, measures, sfx, o
                     v2 = float(M(path, date, float("nan")).from_orbit(elsewhere).value)
                     ctx.count("measure:state-given-in-another-station-frame")
                     d2 = geo.angdiff(v2, val) if cls_name == "Azimut" else abs(v2 - val)
-                    # the detour adds two more station <-> Earth-fixed conversions (each within the base tolerance, which is
-                    # 1e-13 of the geometry; measured worst 4.2x over 13 000 samples): 20x; a wrong station is off by kilometres
-                    tol2 = {"Range": 20 * tol_pos, "Doppler": 20 * tol_rr, "Azimut": 20 * tol_az, "Elevation": 20 * tol_el}[cls_name]
+                    # the detour adds two more station <-> Earth-fixed conversions, each within the base tolerance (measured worst
+                    # 3e-4 of it over 13 000 samples once the detour is cartesian); a wrong station is off by kilometres
+                    tol2 = {"Range": 4 * tol_pos, "Doppler": 4 * tol_rr, "Azimut": 4 * tol_az, "Elevation": 4 * tol_el}[cls_name]
                     ctx.resid("measure:via-other-station-frame:" + cls_name.lower(), d2, tol2, key="C11/measure-depends-on-the-frame-the-state-is-given-in",
                               witness=dict(wm, given_in=str(other_frame), value=v2, value_from_the_original_frame=val),
                               msg=f"{cls_name} of the same state given in the frame of station {other_frame}: {v2!r}, given in its original frame: {val!r}")
